@@ -59,7 +59,7 @@ pub fn run(prop: &str, tier: Tier, seed: u64) -> i32 {
   report.extra.insert("exhaustive_sequences".into(), json!(enumerated));
   report.extra.insert("exhaustive_scope".into(), json!(format!("all op sequences of the listed (initial nodes, length) scopes {:?} over the full alphabet (add_node, every add_edge pair incl. self, every remove_edge pair, remove_outgoing, remove_node), checked after the last op", scopes)));
   if tier == Tier::Thorough && report.violations.is_empty() && std::env::var("PV_NO_FUZZ").is_err() {
-    crate::fuzz::campaign(prop, 1000000, 16, &mut report);
+    crate::fuzz::campaign(prop, 250000, 16, &mut report);
   }
   report.assumptions = vec![
     "reference graph (Vec adjacency, BFS) is correct".into(),
